@@ -159,3 +159,25 @@ def _():
     d = read(scc((300, [RCL, ENM, pac(15, 0)] + txt("AB") + [EOC]), (400, [CR])))
     got = text_rows(d, 500)
     if got != {15: "AB"}: return f"a carriage return in pop-on mode (no effect in CTA-608) leaves {got} of the displayed caption"
+
+@witness("C08", "consecutive-midrow-codes-merge")
+def _():
+    d = read(scc((300, [RCL, ENM, pac(15, 0)] + txt("A") + [0x112E, 0x1128] + txt("B") + [EOC])))
+    r = rows_at(d, 400).get(15, [])
+    cs = {x[0]: x for x in r}
+    if "B" not in cs: return f"rows {r}"
+    if cs["B"][2]: return f"mid-row italics followed by mid-row red: 'B' is {cs['B'][1:]}, a decoder shows red without italics"
+    d = read(scc((300, [RCL, ENM, pac(15, 0)] + txt("A") + [0x1129, 0x1122] + txt("B") + [EOC])))
+    r = rows_at(d, 400).get(15, [])
+    cs = {x[0]: x for x in r}
+    if "B" not in cs: return f"rows {r}"
+    if cs["B"][3]: return f"mid-row red underlined followed by mid-row green: 'B' is {cs['B'][1:]}, a decoder shows green without underline"
+
+@witness("C08", "rollup-blank-line-drops-rows")
+def _():
+    RU3 = 0x1426
+    d = read(scc((300, [RU3, CR, pac(15, 0)] + txt("AB")), (400, [CR, 0]), (500, [CR, pac(15, 0)] + txt("CD"))))
+    got = text_rows(d, 450)
+    if got != {14: "AB"}: return f"roll-up depth 3, AB, CR: {got} is shown after the carriage return, a decoder shows AB on row 14"
+    got = text_rows(d, 600)
+    if got != {13: "AB", 15: "CD"}: return f"roll-up depth 3, AB, CR, CR, CD: {got}, a decoder shows AB on row 13 and CD on row 15"
